@@ -308,6 +308,28 @@ def suffixFactor (unit : Str) (suffix : String) : Option Rat :=
         | _ => none
       f.map fun x => if mbs then x / 1000000 else x
 
+/-- the `±d%` part of a cell (Metrics.FormatDiff): absent iff Mean = 0 or Max = 0, otherwise the larger of
+`1 − Min/Mean` and `Max/Mean − 1` in percent, rounded to an integer (judged for finite Min, Mean, Max) -/
+def judgeCellDiff (c : ImplCell) (rest : String) : Bool :=
+  if !(isFinite c.min && isFinite c.mean && isFinite c.max) then true
+  else
+    let body := String.ofList ((rest.toList.dropWhile (· == ' ')))
+    if eq c.mean posZero || eq c.max posZero then body == ""
+    else
+      match body.toList with
+      | '±' :: r =>
+        let t := (r.dropWhile (· == ' '))
+        if t.getLast? != some '%' then false
+        else match DecText.parse (String.ofList t.dropLast) with
+          | some n =>
+            let mean := toRat c.mean
+            let lo := 1 - toRat c.min / mean
+            let hi := toRat c.max / mean - 1
+            let d := (if hi > lo then hi else lo) * 100
+            rabs (numValue n - d) ≤ mkRat 1 2 + mkRat 1 1000000 + rabs d * mkRat 1 1000000000
+          | none => false
+      | _ => false
+
 /-- the cell `Metrics.Format(scaler)` of a present metric: `<number><suffix>` (then ` ±d%` or blanks) must
 denote the Mean: the number, times the factor of its suffix, is the Mean rounded to the printed
 precision, and — for the cell the row's scaler was made from (`strict`, the first present one) and
@@ -317,7 +339,8 @@ def judgeCellText (unit : Str) (strict : Bool) (c : ImplCell) : Bool :=
   else
     let s := (String.fromUTF8? (ByteArray.mk c.text.toArray)).getD "?"
     let word := String.ofList (s.toList.takeWhile (· != ' '))
-    if !isFinite c.mean then
+    if !judgeCellDiff c (String.ofList (s.toList.drop word.length)) then false
+    else if !isFinite c.mean then
       (if isNaN c.mean then word.startsWith "NaN" else if signBit c.mean then word.startsWith "-Inf" else word.startsWith "+Inf")
     else
       let numChars := word.toList.takeWhile fun ch => ch.isDigit || ch == '.' || ch == '-' || ch == '+'
@@ -440,11 +463,17 @@ def judgeTable (st : Settings) (inp : Input) (ims : List ImplMetric) (it : ImplT
                         let x := Float.ofBits c.mean
                         !(Float.abs (x - g) ≤ 1e-9 * Float.abs g)
                   if bad then "geomean-value"
+                  -- the geomean row is rendered like every other row: scaled number with the unit's suffix
+                  else if ((gr.cells.zipIdx).any fun (c, i) =>
+                      !judgeCellText u (some i == gr.cells.findIdx? (fun c => !c.unit.isEmpty)) c) then "geomean-text"
                   else if ond && counts.all (· > 0) then
                     (match gr.cells with
-                     | [a, b] => if gr.delta == fmtF true (deltaValue a.mean b.mean) 2 ++ "%" then "ok" else "geomean-delta"
+                     | [a, b] =>
+                       if gr.delta != fmtF true (deltaValue a.mean b.mean) 2 ++ "%" then "geomean-delta"
+                       else if canonNaN gr.pd != canonNaN (deltaValue a.mean b.mean) then "geomean-delta-value"
+                       else "ok"
                      | _ => "geomean-cells")
-                  else (if gr.delta == "" then "ok" else "geomean-delta")
+                  else (if gr.delta == "" && eq gr.pd posZero then "ok" else "geomean-delta")
 
 def judgeTables (its : List ImplTable) (ims : List ImplMetric) (inp : Input) (st : Settings) : String :=
   let nconf := inp.configs.length
